@@ -259,6 +259,10 @@ def topo_links(topo, n):
     elif topo == "chain":
         for i in range(n - 1):
             links.append(PartitionLink(f"P{i}", f"P{i+1}", min_latency=L_S))
+    elif topo == "fanin":
+        # heterogeneous links into the last partition: P_i -> P_last declares (i+1) * L
+        for i in range(n - 1):
+            links.append(PartitionLink(f"P{i}", f"P{n-1}", min_latency=(i + 1) * L_S))
     return links
 
 
@@ -353,10 +357,14 @@ def step_alphabet(n, node, topo, window_ns, rich):
         dests = [j for j in range(n) if j != node]
     elif topo == "chain" and node + 1 < n:
         dests = [node + 1]
+    elif topo == "fanin" and node < n - 1:
+        dests = [n - 1]
     for j in dests:
-        steps += [("x", j, L_NS)] if topo == "bi-lat" else [("x", j, L_NS), ("x", j, L_NS + 1), ("x", j, 2 * L_NS)]
+        lmin = (node + 1) * L_NS if topo == "fanin" else L_NS  # the declared minimum of this link
+        steps += [("x", j, L_NS)] if topo == "bi-lat" else [("x", j, lmin), ("x", j, lmin + 1), ("x", j, 2 * lmin)]
     if rich:
-        steps += [("g", window_ns), ("f", 1)]
+        # generator sleeping one window / across more than two windows; future resolved locally
+        steps += [("g", window_ns), ("g", 2 * window_ns + 1), ("f", 1)]
     return steps, dests
 
 
@@ -428,6 +436,9 @@ def run_programs(run, name, n, topo, windows, depth, k, ends_fn, orders, rich, s
     for window_ns in windows:
         firsts = starters(n, topo, window_ns, depth, rich)
         others = starters(n, topo, window_ns, second_depth, False) if k > 1 else []
+        if k > 1 and topo == "fanin":
+            # the second chain must come from a DIFFERENT source partition than the first
+            others = [o for o in others if any(st[0] == "x" for st in o[2])]
         ends = ends_fn(window_ns)
         nch = 48
         chunks = [firsts[i::nch] for i in range(nch)]
@@ -596,7 +607,7 @@ def main(tier, seed, only=None):
                            "bytecode-level races are only covered by the free-running repetition pass"])
     W = [L_NS, L_NS // 2, 3 * TICK // 2 + 1]  # = L, L/2, a non-dyadic 0.1875s+1ns window
     full_end = lambda w: [None, 40 * w]
-    cut_end = lambda w: [None, 3 * w, 2 * w + 1]
+    cut_end = lambda w: [None, 3 * w, 2 * w + 1, (12 * w) // 5]  # last: 2.4 windows (span/window not integral)
 
     def want(n):
         return not only or n in only
@@ -605,7 +616,9 @@ def main(tier, seed, only=None):
         if want("p2-bi-1chain"):
             run_programs(run, "p2-bi-1chain", 2, "bi", W, 3, 1, cut_end, ["fwd", "rev"], True, seed)
         if want("p2-bi-2chains"):
-            run_programs(run, "p2-bi-2chains", 2, "bi", W[:2], 2, 2, full_end, ["fwd"], False, seed)
+            run_programs(run, "p2-bi-2chains", 2, "bi", W[:2], 2, 2, full_end, ["fwd"], True, seed)
+        if want("p3-fanin-2chains"):
+            run_programs(run, "p3-fanin-2chains", 3, "fanin", [L_NS, L_NS // 2], 2, 2, cut_end, ["fwd", "rev"], False, seed)
         if want("p3-chain"):
             run_programs(run, "p3-chain", 3, "chain", W[:2], 3, 1, full_end, ["fwd", "rev"], False, seed)
         if want("p2-link-latency"):
@@ -621,6 +634,8 @@ def main(tier, seed, only=None):
             run_programs(run, "p2-bi-1chain", 2, "bi", W, 4, 1, cut_end, ["fwd", "rev"], True, seed)
         if want("p2-bi-2chains"):
             run_programs(run, "p2-bi-2chains", 2, "bi", W, 2, 2, cut_end, ["fwd", "rev"], True, seed, second_depth=2)
+        if want("p3-fanin-2chains"):
+            run_programs(run, "p3-fanin-2chains", 3, "fanin", W, 3, 2, cut_end, ["fwd", "rev"], True, seed, second_depth=2)
         if want("p3-chain"):
             run_programs(run, "p3-chain", 3, "chain", W, 4, 1, full_end, ["fwd", "rev"], True, seed)
         if want("p3-bi"):
